@@ -83,11 +83,16 @@ def check(run):
     R.rule('C05.strict', 'Text / Close reason are produced by a strict whole-payload UTF-8 decode whose failure '
                          'raises CriticalProtocolError; Close additionally validates the reason', 5)
 
+    R.rule('C05.exact', 'the decoded bytes are the received bytes: no view of the reused receive buffer reaches the '
+                        'parser coroutine / a frame payload (the validator would approve bytes that later change)', 6)
     dfa(R)
     loop(R)
     route(R)
     track(R)
     strict(R)
+    from . import C01
+    with R.as_rule('C05.exact'):
+        C01.alias(R)
 
 
 # ------------------------------------------------------------------------------------------------ dfa
@@ -414,6 +419,35 @@ def _payload_reads(R, g, rd):
     return out
 
 
+def awaitables_fresh(R, RID):
+    """Every awaitable yielded by parse() is constructed for that read: Parser.feed keeps the outstanding count in
+    the awaitable object itself, so an object reused across reads/frames stays shrunk after a partial read."""
+    q = 'frame_parser.FrameParser.parse'
+    recv = 'frame_parser.ClientFrameParser'
+    g = R.cfg(q, recv)
+    rd = ReachingDefs(g)
+    from .common import value_cases
+    n_ = 0
+    for y in g.yields():
+        if y.ast.value is None:
+            continue
+        tys = R.types.expr(y.ast.value, g.ctx)
+        if not any(isinstance(t, str) and t.startswith('inst:parser._Read') for t in tys):
+            continue
+        for (conds, val, site) in value_cases(R, g, y, y.ast.value):
+            if not isinstance(val, ast.Call):
+                continue
+            n_ += 1
+            yl = [fr.stmt for fr in y.frames if fr.kind == 'loop']
+            sl = [fr.stmt for fr in site.frames if fr.kind == 'loop']
+            ok = (yl[-1:] == sl[-1:])
+            R.ob(RID, 'awaitable for `%s` is created for this read' % y.text()[:40], ok,
+                 'the awaitable yielded here is created outside the frame loop and reused: after a read that was split '
+                 'across two recv() calls its outstanding byte count stays reduced and the next frame is mis-parsed',
+                 func=q, node=y.ast)
+    need(n_ >= 4, 'FrameParser.parse: fewer than 4 awaitable yields found')
+
+
 def route(R, RID='C05.route'):
     q = 'frame_parser.FrameParser.parse'
     recv = 'frame_parser.ClientFrameParser'
@@ -510,6 +544,11 @@ def track(R, RID='C05.track'):
         R.ob(RID, 'validator created once per parser', ok,
              'the UTF-8 validator is (re)created outside FrameParser.__init__ (state would not survive '
              'fragment/read boundaries)', func=c.func, node=stmt)
+        fresh = isinstance(val, ast.Call) and any(t.kind == 'ctor' and t.cls == VAL for t in R.types.call_targets(val, c))
+        R.ob(RID, 'each parser gets its own validator', fresh,
+             'the parser\'s validator is %s, not a Utf8Validator() constructed in __init__: a validator taken from a '
+             'parameter default or shared object is shared by every parser (one connection\'s pending state poisons '
+             'the next)' % U(val), func=c.func, node=stmt)
     need(st, '_utf8_validator is never assigned')
     # reset() call sites on a parser's validator
     sites = []
@@ -591,6 +630,37 @@ def track(R, RID='C05.track'):
     R.ob(RID, '_is_text is cleared somewhere', vals.count('False') >= 2, '_is_text is never cleared: '
          'continuations of binary messages would be validated as text', func='frame_parser.FrameParser.on_frame',
          node=None, construct='_is_text = False')
+    # generic: per-message parser state (any field written while parsing frames) is not touched by control frames
+    known = {'_is_text'}
+    for fq in ('frame_parser.FrameParser.parse', 'frame_parser.FrameParser.on_frame', recv + '.on_frame'):
+        fi = R.prog.funcs.get(fq)
+        if fi is None:
+            continue
+        gg = R.cfg(fq, recv)
+        rdg = ReachingDefs(gg)
+        fvar = _frame_var_in(fi)
+        for n in gg.live_nodes():
+            if n.kind != 'stmt' or not isinstance(n.ast, (ast.Assign, ast.AugAssign)):
+                continue
+            tgts = n.ast.targets if isinstance(n.ast, ast.Assign) else [n.ast.target]
+            for t in tgts:
+                if isinstance(t, ast.Attribute) and U(t.value) == 'self' and t.attr not in known:
+                    start = gg.entry
+                    if fi.name == 'parse':
+                        cons = [m for m in gg.live_nodes() if m.kind == 'stmt' and isinstance(m.ast, ast.Assign)
+                                and U(m.ast.targets[0]) == fvar]
+                        start = cons[0] if cons else gg.entry
+                        if n not in gg.succ_reach(start):
+                            continue
+                    T = lambda s_: '%s.opcode == Opcode.%s' % (fvar, s_)
+                    bad = []
+                    for l in path_conditions(R, gg, rdg, start, n):
+                        if not (('%s.opcode >= 8' % fvar, False) in l or any((T(s_), True) in l for s_ in ('TEXT', 'BINARY', 'CONTINUATION'))):
+                            bad.append(sorted(x[0] for x in l if x[1])[:4])
+                    R.ob(RID, 'parser state `%s` is not written while handling a control frame' % t.attr, not bad,
+                         'self.%s is written on a path that a Ping/Pong/Close frame takes (%s): a control frame between the '
+                         'fragments of a message changes how the rest of the message is read' % (t.attr, bad[:1]),
+                         func=fi, node=n.ast)
     # on_frame runs for every frame before it is yielded
     g = R.cfg('frame_parser.FrameParser.parse', recv)
     onf = calls_to(R, g, ['frame_parser.ClientFrameParser.on_frame', 'frame_parser.FrameParser.on_frame'])
